@@ -258,6 +258,7 @@ def run(ck: Check, prog: Program) -> None:
     _none_leak(ck, prog)
     _gen_stateless(ck, prog)
     _meta_not_lazy(ck, prog)
+    _gen_total(ck, prog)
     _name_source(ck, prog)
 
 
@@ -281,6 +282,139 @@ def _gen_stateless(ck: Check, prog: Program) -> None:
             ck.finding('GEN-STATELESS', w.func.qualname, f'{w.why} on {w.target.split(":")[0]} state: {w.text[:50]}', w.func.module.rel, w.line,
                        f'`{w.text}` writes state that outlives the generation ({w.target}): what is documented then depends on earlier '
                        f'generations / other methods (e.g. a model cached under a name is reused for a different function exposed under the same name)')
+
+
+def _gen_total(ck: Check, prog: Program) -> None:
+    """GEN-TOTAL: generation produces a document for every registry — the pieces that can make it raise or lose parts, as far as they
+    are visible in the shape of the code:
+      (a) every construction of a specification dataclass inside the specs package supplies all required fields (a missing one is a
+          TypeError at generation time, for every registry that reaches the construction);
+      (b) an optional sub-object that the code itself tests before use (`doc.returns`) is dereferenced only where that test held;
+      (c) the accumulated component table is kept when it is extended (`table = table or {}`), and every declared error is given its
+          schema / appended to the method's error list only when it is a known error class."""
+    from ..types import FuncScope, types_of
+    from ..cfg import CFG as _CFG
+    ty = types_of(prog)
+    n_ctor = 0
+    for f in prog.iter_funcs():
+        if not f.module.name.startswith('pjrpc.server.specs') or not isinstance(f.node, (ast.FunctionDef, ast.AsyncFunctionDef)):
+            continue
+        sc = FuncScope(f, ty)
+        for x in walk_own(f.node):
+            if not isinstance(x, ast.Call):
+                continue
+            try:
+                tg = ty.callees(x, sc)
+            except RecursionError:
+                continue
+            ctors = [o for k, o in tg if k == 'ctor' and isinstance(o, ClassInfo) and o.module.name.startswith('pjrpc.server.specs')]
+            if len(ctors) != 1 or len(tg) != 1:
+                continue
+            ci = ctors[0]
+            is_dc = any((dotted(d.func) if isinstance(d, ast.Call) else dotted(d)) in ('dc.dataclass', 'dataclasses.dataclass', 'dataclass')
+                        for d in ci.node.decorator_list)
+            if not is_dc or '__init__' in ci.methods:
+                continue
+            if any(isinstance(a, ast.Starred) for a in x.args) or any(k.arg is None for k in x.keywords):
+                continue
+            fields = []
+            for c_ in reversed([c for c in prog.mro(ci) if isinstance(c, ClassInfo)]):
+                for st in c_.node.body:
+                    if isinstance(st, ast.AnnAssign) and isinstance(st.target, ast.Name) and 'ClassVar' not in norm(st.annotation):
+                        fields = [(n_, r_) for n_, r_ in fields if n_ != st.target.id] + [(st.target.id, st.value is None)]
+            n_ctor += 1
+            given = {fields[i][0] for i in range(min(len(x.args), len(fields)))} | {k.arg for k in x.keywords}
+            missing = [n_ for n_, req in fields if req and n_ not in given]
+            unknown = [k.arg for k in x.keywords if k.arg not in {n_ for n_, _ in fields}]
+            ck.ob('GEN-TOTAL', f'{short(f.qualname)}: {ci.name}(…) supplies every required field', not missing and not unknown)
+            if missing or unknown:
+                ck.finding('GEN-TOTAL', f.qualname, f'{ci.name}() built without {missing or unknown}', f.module.rel, x.lineno,
+                           f'`{norm(x)[:80]}`: {ci.name} requires {missing}' + (f' and has no field {unknown}' if unknown else '') +
+                           ': the call raises TypeError, so no document is generated for any registry that reaches it')
+    ck.require('GEN-TOTAL', 'specification dataclass constructions in the specs package', n_ctor, 20)
+    # (b) optional sub-objects
+    n_opt = 0
+    for f in prog.iter_funcs():
+        if not f.module.name.startswith('pjrpc.server.specs.extractors') or not isinstance(f.node, (ast.FunctionDef, ast.AsyncFunctionDef)):
+            continue
+        cfg = _CFG(f, prog)
+        tested = {}
+        for c in cfg.nodes:
+            if c.kind == 'cond':
+                d = dotted(c.ast)
+                if d and d.count('.') >= 1:
+                    tested.setdefault(d, []).append(c)
+        for d, conds in tested.items():
+            for n in cfg.stmt_nodes():
+                if n in conds:
+                    continue
+                derefs = [x for frag in node_exprs(n) for x in walk_no_defs(frag)
+                          if isinstance(x, ast.Attribute) and dotted(x.value) == d and isinstance(x.ctx, ast.Load)]
+                if not derefs:
+                    continue
+                n_opt += 1
+                false_edges = [e for c in conds for e in cfg.succ[c.id] if e.label == 'F']
+                # reachable although no test of `d` came out true: entry -> n avoiding the T edges
+                true_edges = [e for c in conds for e in cfg.succ[c.id] if e.label == 'T']
+                unguarded = n.id in cfg.reachable_consistent(cfg.entry, avoid_edges=true_edges)
+                ck.ob('GEN-TOTAL', f'{short(f.qualname)}: `{d}.…` is read only where `{d}` was found set', not unguarded)
+                if unguarded:
+                    ck.finding('GEN-TOTAL', f.qualname, f'`{d}` dereferenced where it may be None', f.module.rel, n.line,
+                               f'`{norm(derefs[0])}` at line {n.line} can be reached without `{d}` having been found set (the function tests `{d}` '
+                               f'elsewhere, so it can be None): generation raises AttributeError for a docstring without that section')
+    # (c) accumulated tables and error lists
+    for f in prog.iter_funcs():
+        if not f.module.name.startswith('pjrpc.server.specs') or not isinstance(f.node, (ast.FunctionDef, ast.AsyncFunctionDef)):
+            continue
+        for st in walk_own(f.node):
+            if isinstance(st, ast.Assign) and len(st.targets) >= 1 and any(dotted(t) and dotted(t).endswith('.components.schemas') for t in st.targets):
+                tgt = [dotted(t) for t in st.targets if dotted(t) and dotted(t).endswith('.components.schemas')][0]
+                v = st.value
+                ok_acc = isinstance(v, ast.BoolOp) and isinstance(v.op, ast.Or) and dotted(v.values[0]) == tgt and \
+                    isinstance(v.values[-1], ast.Dict) and not v.values[-1].keys or isinstance(v, ast.Dict) and False
+                if isinstance(v, ast.BoolOp):
+                    ck.ob('REF-CLOSED', f'{short(f.qualname)}: the component table is kept when it is extended', bool(ok_acc))
+                    if not ok_acc:
+                        ck.finding('REF-CLOSED', f.qualname, f'component table replaced: {norm(st)[:50]}', f.module.rel, st.lineno,
+                                   f'`{norm(st)[:90]}` does not keep the components registered so far (`{tgt} or {{}}`): the definitions contributed by '
+                                   f'earlier methods are dropped while the $refs to them stay in the document')
+    # declared errors: the docstring extractor lists an error only when it names a known error class; the response schema gets one
+    # alternative per declared error
+    de = prog.classes.get('pjrpc.server.specs.extractors.docstring.DocstringSchemaExtractor')
+    if de is not None and 'extract_errors' in de.methods:
+        f = de.methods['extract_errors']
+        cfg = _CFG(f, prog)
+        for n in cfg.stmt_nodes():
+            for c in calls_in(n):
+                if isinstance(c.func, ast.Attribute) and c.func.attr == 'append' and c.args and isinstance(c.args[0], ast.Name):
+                    v = c.args[0].id
+                    ok_t = False
+                    for g in guard_edges(cfg, n):
+                        k = classify_cond(prog, f, g.src.ast)
+                        if k.subject == v and ((k.kind == 'truthy' and (g.label == 'T') != k.negated) or (k.kind == 'is-none' and (g.label == 'T') == k.negated)):
+                            ok_t = True
+                    ck.ob('NONE-LEAK', f'{short(f.qualname)}: `{v}` is listed only when the docstring names a known error class', ok_t)
+                    if not ok_t:
+                        ck.finding('NONE-LEAK', f.qualname, f'unknown error names listed as {v}', f.module.rel, n.line,
+                                   f'`{norm(c)}` is not guarded by `{v}` being set: a `:raises X:` entry that names no registered error class puts None '
+                                   f'into the method\'s error list, and generation fails (or the known errors are the ones dropped)')
+    sm = prog.modules.get('pjrpc.server.specs.schemas')
+    brs = prog.funcs.get('pjrpc.server.specs.schemas.build_response_schema')
+    if brs is not None:
+        cfg = _CFG(brs, prog)
+        heads = [n for n in cfg.nodes if n.kind == 'next' and dotted(n.ast.iter) in [p.arg for p in brs.params]]
+        ok_e = False
+        if len(heads) == 1:
+            h = heads[0]
+            body = [n for n in cfg.stmt_nodes() if n.id in cfg.reachable(h, edge_ok=lambda e: e.label != 'exhausted') and h.id in cfg.reachable(n)]
+            apps = [n for n in body for c in calls_in(n) if isinstance(c.func, ast.Attribute) and c.func.attr == 'append']
+            first = [e.dst for e in cfg.succ[h.id] if e.label == 'body']
+            ok_e = len(apps) == 1 and not any(h.id in cfg.reachable(s_, avoid_nodes=apps) for s_ in first if s_ not in apps)
+        ck.ob('COMPLETE-LOOP', 'build_response_schema: every declared error contributes one alternative to the response schema', ok_e)
+        if not ok_e:
+            ck.finding('COMPLETE-LOOP', brs.qualname, 'declared errors are not all described', brs.module.rel, brs.node.lineno,
+                       'the loop over the declared errors must append one schema per error: otherwise errors documented for the method are '
+                       'missing from its entry')
 
 
 CONSUMERS = {'list', 'tuple', 'sorted', 'set', 'frozenset', 'dict', 'sum', 'any', 'all', 'max', 'min', 'len', 'str', 'repr', 'bool'}
